@@ -557,8 +557,9 @@ func Observe(i *Inst, w *world.World) map[string]string {
 		}
 	}
 	m := st.GetMeta()
-	o["meta"] = fmt.Sprintf("maxblk=%d newacc=%d irr=%d win=%d gas=%v reserved=%d", m.MaxBlockSize, m.NewAccountResourceAmount,
-		m.IrreversibleBlockHeight, m.IrreversibleSlideWindow, m.GasPrice, len(m.ReservedContracts))
+	o["meta"] = fmt.Sprintf("maxblk=%d newacc=%d win=%d gas=%v reserved=%d", m.MaxBlockSize, m.NewAccountResourceAmount,
+		m.IrreversibleSlideWindow, m.GasPrice, len(m.ReservedContracts))
+	o["irr"] = fmt.Sprint(m.IrreversibleBlockHeight)
 	rd := st.CreateXMReader()
 	for _, k := range KVKeys {
 		v, err := rd.Get(world.VKVBucket, []byte(k))
